@@ -280,10 +280,14 @@ func genSessions(c *lib.Ctx, rng *rand.Rand) []sessIn {
 	}
 	// 7. findings stream: configurations where the unchanged code is expected to fail
 	w := sessAssets[6]
-	//   (a) 29.97: 2.002*k*1000 truncates to 1 ms early for some k: the step delivers nothing
-	add(sessIn{Kind: "f:truncation", Asset: w.path, MPD: w.mpd, Cfg: cfgIn{Mode: "number", Snr: -1, Tsbd: -1}, NowMS: 10000, Test: true, Events: steps(5)})
-	//   (b) the same with chunking: the rejected request kills the process (send on closed channel)
-	add(sessIn{Kind: "f:truncation-chunked", Asset: w.path, MPD: w.mpd, Cfg: cfgIn{Mode: "number", Snr: -1, Tsbd: -1, AtoMS: 1000, ChunkDurMS: 1000}, NowMS: 15000, Test: true, Events: steps(1), Solo: true})
+	//   (a) 29.97 fps: 8*60060/30000 s * 1000 is 16015.999999999998 in float64; since fix f4e8dbe the
+	//       availability time is rounded up (before: truncated, the step for number 7 delivered nothing,
+	//       with chunking the rejected request killed the process). Kept in the stream: a regression shows here.
+	add(sessIn{Kind: "r:truncation", Asset: w.path, MPD: w.mpd, Cfg: cfgIn{Mode: "number", Snr: -1, Tsbd: -1}, NowMS: 10000, Test: true, Events: steps(5)})
+	add(sessIn{Kind: "r:truncation-chunked", Asset: w.path, MPD: w.mpd, Cfg: cfgIn{Mode: "number", Snr: -1, Tsbd: -1, AtoMS: 1000, ChunkDurMS: 1000}, NowMS: 15000, Test: true, Events: steps(1), Solo: true})
+	//   (b) chunked transfer and a request that writeSegment rejects (here: number -1 of a session created
+	//       before the first segment is complete): send on closed channel, the process dies
+	add(sessIn{Kind: "f:chunked-rejected", Asset: "testpic_2s", MPD: "Manifest.mpd", Cfg: cfgIn{Mode: "number", Snr: -1, Tsbd: -1, AtoMS: 1000, ChunkDurMS: 1000}, NowMS: 500, Test: true, Events: steps(1), Solo: true})
 	//   (c) $Time$ addressing with generated subtitles: nil representation in generateTimelineEntries
 	add(sessIn{Kind: "f:timeline-timesubs", Asset: "testpic_2s", MPD: "Manifest.mpd", Cfg: cfgIn{Mode: "tlt", Snr: -1, Tsbd: -1, TimeSubs: []string{"en"}}, NowMS: 10000, Test: true, Events: steps(1), Solo: true})
 	//   (d) chunked and a receiver that answers 500 once: the session hangs for ever
